@@ -72,7 +72,7 @@ PROPS = {
     'C01': {
         'rules': SK_LOOP + SK_SELECT + both(sk.rule_sk_stop, sk.rule_sk_err) + both(hd.rule_va_index, hd.rule_hd_startwin, hd.rule_hd_except, ow.rule_ow_fresh, ow.rule_ow_selwrap, pa.rule_pa_litflow, pa.rule_pa_subst),
         'thorough_rules': both(sk.rule_sk_alias, wr.rule_wr_ret, wr.rule_wr_prop) + one(xp.rule_xp_verdicts),
-        'explanation': 'Decides the loop structure of every generated SELECT program (all 16 select configurations per port, composed by partially evaluating the code generator from its own source): end-of-input test before NR, NR/NF definitions, variable initialisation dominating every user fragment and placed inside the join-match loop, WHERE control dependence, exactly one emission per evaluation selected by (aggregation stage, UNNEST), UNNEST reset on every cycle through the select fragment, join pairing order; plus aN/a[N] -> index N-1 with the safe_get guard, star/EXCEPT expansion as fresh lists.',
+        'explanation': 'Decides the loop structure of every generated SELECT program (all 16 select configurations per port, composed by partially evaluating the code generator from its own source): end-of-input test before NR, NR/NF definitions, variable initialisation dominating every user fragment and placed inside the join-match loop, WHERE control dependence, exactly one emission per evaluation selected by (aggregation stage, UNNEST), UNNEST reset on every cycle through the select fragment, join pairing order; plus aN/a[N] -> index N-1 with the safe_get guard, star/EXCEPT expansion as fresh lists. Text handling on the way into the program: structural matchers receive literal-free text (the extracted literal list counts as literal content), and every template-interpreting substitution (String.replace / re.sub) has a constant or functional replacement operand, so user text is never re-interpreted.',
         'not_decided': 'that the regex-based rewriting of an arbitrary select list preserves its meaning (comma structure inside nested brackets, AS inside expressions); values computed by user expressions.',
     },
     'C02': {
@@ -85,7 +85,7 @@ PROPS = {
         'rules': AG_ALL + both(wr.rule_wr_aggw, sk.rule_sk_alias, sk.rule_sk_emit, conf.rule_pa_excl),
         'thorough_rules': both(sk.rule_sk_where, wr.rule_wr_prop) + one(xp.rule_xp_roles),
         'explanation': 'Decides routing and grouping: each aggregate entry point (and every alias spelling bound in the generated prologue) registers the aggregator class of the same name, COUNT passes 1, token ids equal registration order, stage 1 installs one aggregator or constant-group verifier per output column and feeds the first record, stage 2 increments aggregator i with value i, group keys are collected in a set and emitted in ascending component-wise order, one get_final per column; constant-group verifier raises on a differing value and tests absence by membership; lower-case min/max/sum dispatch; COUNT(*) rewrite; ORDER BY/UPDATE/DISTINCT rejected.',
-        'not_decided': 'numerical exactness of the nine accumulators (variance formula, even/odd median, int -> float fallback): statements about runtime values; no rule pins an arithmetic expression.',
+        'not_decided': 'floating-point rounding of the accumulators and the order of additions (AG-FOLD decides the fold expressions up to algebraic identity over the rationals, AG-MEDIAN the even/odd selection; bit-exact results are statements about runtime values).',
     },
     'C04': {
         'rules': JN_ALL + both(sk.rule_sk_join, sk.rule_sk_vars, sk.rule_sk_unnest, pa.rule_pa_groups, hd.rule_va_index),
@@ -96,7 +96,7 @@ PROPS = {
     'C05': {
         'rules': SK_LOOP + SK_UPDATE + both(sk.rule_sk_join, sk.rule_sk_err, sk.rule_sk_stop, hd.rule_va_index, ow.rule_ow_mut, pa.rule_pa_litflow, pa.rule_pa_subst),
         'thorough_rules': both(hd.rule_hd_update, conf.rule_pa_excl, ow.rule_ow_fresh),
-        'explanation': 'Decides the UPDATE programs (4 configurations per port): up_fields is a fresh copy of record_a made each iteration before assignments and write; variables are bound from the original record before any assignment (so right-hand sides see original values); exactly one writer.write(up_fields) per input record on every normal path, not control-dependent on WHERE; NU += 1 under the same guard immediately before the assignments; generated assignments are safe_set(up_fields, index, value) whose out-of-range store raises the bad-field error that the per-record handler reports with the record number.',
+        'explanation': 'Decides the UPDATE programs (4 configurations per port): up_fields is a fresh copy of record_a made each iteration before assignments and write; variables are bound from the original record before any assignment (so right-hand sides see original values); exactly one writer.write(up_fields) per input record on every normal path, not control-dependent on WHERE; NU += 1 under the same guard immediately before the assignments; generated assignments are safe_set(up_fields, index, value) whose out-of-range store raises the bad-field error that the per-record handler reports with the record number. Literal-free matching and literal substitution as for C01.',
         'not_decided': 'splitting of an arbitrary assignment list by the assignment regex (a statement about all strings).',
     },
     'C06': {
@@ -108,19 +108,19 @@ PROPS = {
     'C07': {
         'rules': HD_ALL + both(conf.rule_hd_arity, conf.rule_pa_hdrcall, conf.rule_pa_conf, ow.rule_ow_mut),
         'thorough_rules': both(sk.rule_sk_copy, pa.rule_pa_case) + one(xp.rule_xp_verdicts),
-        'explanation': 'Decides header/record arity agreement and the naming table: in every parser configuration the arity delta of the installed writers (DISTINCT COUNT: +1) is applied to the header before set_header; set_header is called exactly once on the unwrapped sink with nothing that can raise afterwards; UPDATE hands the unchanged input header; EXCEPT header and records use select_except with the same indices; naming decision table total and ordered (unnamed -> colK by output position, star forms, column name, alias, in-range index -> source name); subscript shapes of this interpreter\'s ast are covered; the two star-rewriting patterns agree; no input header and no alias -> no header.',
+        'explanation': 'Decides header/record arity agreement and the naming table: in every parser configuration the arity delta of the installed writers (DISTINCT COUNT: +1) is applied to the header before set_header; set_header is called exactly once on the unwrapped sink with nothing that can raise afterwards; UPDATE hands the unchanged input header; EXCEPT header and records use select_except with the same indices; naming decision table total and ordered (unnamed -> colK by output position, star forms, column name, alias, in-range index -> source name); subscript shapes of this interpreter\'s ast are covered; the two star-rewriting patterns agree; no input header and no alias -> no header. The CSV writer emits the header at once, or - if deferred - on every normal path through finish(); the width test dominates every stream write. The naming table is decided by evaluating the per-column code (inline or in a helper) on all 257 abstract column infos.',
         'not_decided': 'that the header-side parse (python ast / JS bracket scanner) and the record-side evaluation of an arbitrary select list agree on the number of items.',
     },
     'C08': {
         'rules': PA_ALL + both(ag.rule_jn_dispatch, ag.rule_pa_join, hd.rule_va_index),
         'thorough_rules': both(conf.rule_pa_conf, conf.rule_pa_excl) + one(xp.rule_rx_xp, xp.rule_xp_keywords),
-        'explanation': 'Decides spelling invariance structurally: every keyword-matching pattern of the parser is case-insensitive (flag, inline flag or per-letter classes; alternations of fixed casings are recognised as not case-insensitive), the WITH modifier is captured in any case and lower-cased, statement groups order longer keywords first and location is position-sorted (clause order free), cleanup acts on whole lines / the final semicolon only, tabs are rewritten only after literal extraction, structural matchers receive literal-free text and every stored fragment has its literals re-inserted, TOP/LIMIT/ASC/DESC/FROM a/UPDATE a SET/= vs == handling; a taint analysis shows which functions receive raw query text and flags every raise that depends on it.',
+        'explanation': 'Decides spelling invariance structurally: every keyword-matching pattern of the parser is case-insensitive (flag, inline flag or per-letter classes; alternations of fixed casings are recognised as not case-insensitive), the WITH modifier is captured in any case and lower-cased, statement groups order longer keywords first and location is position-sorted (clause order free), cleanup acts on whole lines / the final semicolon only, tabs are rewritten only after literal extraction, structural matchers receive literal-free text and every stored fragment has its literals re-inserted, TOP/LIMIT/ASC/DESC/FROM a/UPDATE a SET/= vs == handling; a taint analysis shows which functions receive raw query text and flags every raise that depends on it. Marker numbering (marker i <-> literal i, whole literal stored) and comment/empty-line handling are decided on the dataflow of separate/combine/cleanup, find_top on its path summaries (LIMIT present -> its integer, absent -> TOP; never chosen by truthiness).',
         'not_decided': 'the exact language of Python/JS string literals accepted by the literal regex.',
     },
     'C09': {
         'rules': VA_ALL + both(rd.rule_rd_hdrflag, rd.rule_rd_replay, conf.rule_pa_with, sk.rule_sk_nr, pa.rule_pa_withcase, pa.rule_pa_subst),
         'thorough_rules': both(sk.rule_sk_eof, sk.rule_sk_vars) + one(xp.rule_rx_xp),
-        'explanation': 'Decides variable binding structure: name -> index maps are built from header positions, a.name / a["name"] / direct names store that position, the escape function doubles backslashes first and covers quote/LF/CR with the same quote character as the generated key text, the candidate filter only searches for segments the escape leaves unchanged; header line replay flag is always the negation of has_header, WITH (header/noheader) reaches both iterators before their variable maps are built; NR is counted by the engine loop.',
+        'explanation': 'Decides variable binding structure: name -> index maps are built from header positions, a.name / a["name"] / direct names store that position, the escape function doubles backslashes first and covers quote/LF/CR with the same quote character as the generated key text, the candidate filter only searches for segments the escape leaves unchanged; header line replay flag is always the negation of has_header, WITH (header/noheader) reaches both iterators before their variable maps are built; NR is counted by the engine loop. Column names are substituted into generated text only through literal (non template-interpreting) operations.',
         'not_decided': 'completeness of the candidate filter for spellings of a name other than the canonical escaped one.',
     },
     'C10': {
@@ -144,7 +144,7 @@ PROPS = {
     'C13': {
         'rules': IF_ALL,
         'thorough_rules': both(conf.rule_rs_proto) + py(cs.rule_cs_dispatch),
-        'explanation': 'Decides that the engine cannot tell adapters apart and the CLI channel discipline: the engine imports no adapter and never inspects an adapter type; every adapter implements the interface with the engine\'s arity and hands the engine lists; every entry point delegates the unchanged query to rbql_engine.query; on the non-interactive path nothing but --version prints to stdout, errors are `Error [type]: msg` and warnings `Warning: msg` on stderr, every failure ends in sys.exit(1), success falls off main; error type map and out-format/default-policy tables.',
+        'explanation': 'Decides that the engine cannot tell adapters apart and the CLI channel discipline: the engine imports no adapter and never inspects an adapter type; every adapter implements the interface with the engine\'s arity and hands the engine lists; every entry point delegates the unchanged query to rbql_engine.query; on the non-interactive path nothing but --version prints to stdout, errors are `Error [type]: msg` and warnings `Warning: msg` on stderr, every failure ends in sys.exit(1), success falls off main; error type map and out-format/default-policy tables. An option to which the CLI assigns a falsy legal value is tested by presence only; every registry returns an iterator constructed by that call; the runner maps any exception to show_error + False and success to True (path summaries, helper followed); the CSV header is emitted on every path.',
         'not_decided': 'equality of results across back-ends (depends on pandas/sqlite value conversion).',
     },
     'C14': {
@@ -156,19 +156,19 @@ PROPS = {
     'C15': {
         'rules': RS_ALL + py(wr.rule_wr_ret, wr.rule_wr_prop, wr.rule_wr_fin, sk.rule_sk_stop, sk.rule_sk_unnest_pos, conf.rule_rs_proto, conf.rule_pa_hdrcall),
         'thorough_rules': py(rs.rule_fl_flags, rd.rule_rd_decode) + both(sk.rule_sk_err),
-        'explanation': 'Decides fault handling structure (Python): the broken-pipe handler covers every stream write, sets the flag and returns False, finish() is a no-op afterwards; the False propagates through every chain writer to stop_flag and the loops; every stream.read is reachable only through the try that maps UnicodeDecodeError to the IO error; every open() in the CSV/sqlite front-ends is closed on all paths (with / flag-coupled try-finally / object closed in the creator\'s finally); protocol: parser calls only set_header (once, unwrapped, first), the run only write, query() calls finish exactly once after a successful run, not in a finally.',
+        'explanation': 'Decides fault handling structure (Python): the broken-pipe handler covers every stream write, sets the flag and returns False, finish() is a no-op afterwards; the False propagates through every chain writer to stop_flag and the loops; every stream.read is reachable only through the try that maps UnicodeDecodeError to the IO error; every open() in the CSV/sqlite front-ends is closed on all paths (with / flag-coupled try-finally / object closed in the creator\'s finally); protocol: parser calls only set_header (once, unwrapped, first), the run only write, query() calls finish exactly once after a successful run, not in a finally. In the broken-pipe handlers a re-raise is possible only under a test that is false when the caught class is BrokenPipeError itself; no path that leaves a chain writer\'s finish() exceptionally has finished the sink.',
         'not_decided': 'OS-level behaviour of pipes and the text wrapper\'s flushing.',
     },
     'C16': {
         'rules': GS_ALL + py(sk.rule_sk_scope, lk.rule_lk_cache, ow.rule_ow_mut) + one(hd.rule_va_record) + py(ifc.rule_if_regfresh),
         'thorough_rules': py(sk.rule_sk_alias),
-        'explanation': 'Decides isolation as absence of shared mutable state (hence independence of every schedule and history): inventory of module-level bindings with every mutable one never the receiver of a mutating operation; `global` writes allow-listed (two debug flags); no class-level mutable attribute, no mutable default; the per-query context is created per call, only passed down or captured by per-run closures; exec receives explicit globals and a per-call locals mapping and runs the composed skeleton whose every binding is local to the wrapper function; the LIKE cache lives in the context.',
+        'explanation': 'Decides isolation as absence of shared mutable state (hence independence of every schedule and history): inventory of module-level bindings with every mutable one never the receiver of a mutating operation; `global` writes allow-listed (two debug flags); no class-level mutable attribute, no mutable default; the per-query context is created per call, only passed down or captured by per-run closures; exec receives explicit globals and a per-call locals mapping and runs the composed skeleton whose every binding is local to the wrapper function; the LIKE cache lives in the context. Module-level tables filled only as pure memos (value computed from the key alone by side-effect free operations) are accepted; module-level instances of classes whose methods change them are shared state; registries hand out fresh iterators.',
         'not_decided': 'stdlib-internal caches (re) and whatever user expressions touch; the JavaScript module-global query_context is outside this property\'s anchors and reported only as evidence.',
     },
     'C17': {
         'rules': LK_ALL,
         'thorough_rules': one(xp.rule_xp_roles),
-        'explanation': 'Decides the LIKE translation: every piece of the pattern appended to the result passes through the escape function (only the constants ., .*, ^, $ bypass it); exactly _ and % are special and map to . and .*; the scan advances by one unconditionally, flushes [p,i) at a wildcard, resets p = i+1 and flushes the tail; the result is ^...$, compiled without flags, matched against the whole text and turned into a boolean; rbql-js: the escape class contains every ECMAScript SyntaxCharacter (checked on the regex language), global flag, replacement \\$&.',
+        'explanation': 'Decides the LIKE translation: every piece of the pattern appended to the result passes through the escape function (only the constants ., .*, ^, $ bypass it); exactly _ and % are special and map to . and .*; the scan advances by one unconditionally, flushes [p,i) at a wildcard, resets p = i+1 and flushes the tail; the result is ^...$, compiled without flags, matched against the whole text and turned into a boolean; rbql-js: the escape class contains every ECMAScript SyntaxCharacter (checked on the regex language), global flag, replacement \\$&. The matcher applied is the one obtained for this call\'s pattern (a matcher remembered between calls must be replaced whenever the remembered pattern is).',
         'not_decided': 'nothing further for single-line texts once re.escape / RegExp semantics are trusted (`.` and `$` treat LF specially - outside the quantifier).',
     },
     'C18': {
@@ -186,7 +186,7 @@ PROPS = {
     'C20': {
         'rules': RD_JS,
         'thorough_rules': js(rs.rule_fl_flags, rs.rule_fl_fields, cs.rule_cs_dispatch) + one(xp.rule_xp_messages),
-        'explanation': 'Decides the chunk pipeline of the JS stream reader: bytes decoded only by one TextDecoder created fatal and ignoreBOM, every chunk decoded with {stream: true}, decoder flushed at end of stream, decode failures mapped to the IO error; the carried partial line is prepended to the first line of the next chunk and the last line kept, every complete line processed once in order; a chunk starting with LF right after a chunk ending in CR skips the empty first line, the ends-with-CR flag recomputed per chunk after use; end of stream flushes the partial line and an unfinished multi-line record; multi-line aggregation by quote parity; FIFO record queue.',
+        'explanation': 'Decides the chunk pipeline of the JS stream reader: bytes decoded only by one TextDecoder created fatal and ignoreBOM, every chunk decoded with {stream: true}, decoder flushed at end of stream, decode failures mapped to the IO error; the carried partial line is prepended to the first line of the next chunk and the last line kept, every complete line processed once in order; a chunk starting with LF right after a chunk ending in CR skips the empty first line, the ends-with-CR flag recomputed per chunk after use; end of stream flushes the partial line and an unfinished multi-line record; multi-line aggregation by quote parity; FIFO record queue. In bulk mode the test that rejects input compares against the raw bytes (the decoded text alone cannot tell a substituted U+FFFD from a genuine one).',
         'not_decided': 'equality over all byte partitions.',
     },
 }
